@@ -1,77 +1,10 @@
-//! lruverif: runtime monitors for lru-mem. One binary, many sub-commands; each prints /
-//! writes one JSON result that run/check.py merges into verdicts and evidence.
+//! lruverif: one binary, many sub-commands; each prints one `RESULT {json}` line that run/check.py merges.
 
-mod engine;
-mod enumr;
-mod gen;
-mod inject;
-mod json;
-mod memsize;
-mod obs;
-mod ops;
-mod oracle;
-mod rng;
-mod types;
-mod valloc;
-
-use json::J;
-use std::collections::HashMap;
+use lruverif::json::J;
+use lruverif::*;
 
 #[global_allocator]
 static GLOBAL: valloc::VAlloc = valloc::VAlloc;
-
-pub struct Args { pub cmd: String, pub kv: HashMap<String, String> }
-
-impl Args {
-    fn parse() -> Args {
-        let mut it = std::env::args().skip(1);
-        let cmd = it.next().unwrap_or_else(|| "help".to_string());
-        let mut kv = HashMap::new();
-        let rest: Vec<String> = it.collect();
-        let mut i = 0;
-        while i < rest.len() {
-            if let Some(k) = rest[i].strip_prefix("--") {
-                if let Some((a, b)) = k.split_once('=') { kv.insert(a.to_string(), b.to_string()); }
-                else if i + 1 < rest.len() && !rest[i + 1].starts_with("--") { kv.insert(k.to_string(), rest[i + 1].clone()); i += 1; }
-                else { kv.insert(k.to_string(), "1".to_string()); }
-            }
-            i += 1;
-        }
-        Args { cmd, kv }
-    }
-    pub fn u64(&self, k: &str, d: u64) -> u64 { self.kv.get(k).and_then(|v| v.parse().ok()).unwrap_or(d) }
-    pub fn str(&self, k: &str, d: &str) -> String { self.kv.get(k).cloned().unwrap_or_else(|| d.to_string()) }
-}
-
-pub fn stats_json(out: &engine::RunOut) -> J {
-    let st = &out.stats;
-    let mut j = J::obj();
-    j.put("events", J::u(st.events));
-    j.put("histories", J::u(st.histories));
-    j.put("evals", J::Obj(st.evals.iter().map(|(k, v)| (k.to_string(), J::u(*v))).collect()));
-    j.put("distinct", J::Obj(st.distinct.iter().map(|(k, v)| (k.to_string(), J::Arr(v.iter().map(|x| J::Str(format!("{:x}", x))).collect()))).collect()));
-    j.put("counters", J::map_u64(&st.counters));
-    j.put("maxima", J::map_u64(&st.maxima));
-    j.put("samples", J::Obj(st.samples.iter().map(|(k, v)| (k.to_string(), J::strs(v.iter().cloned()))).collect()));
-    j.put("failures", J::Arr(out.failures.iter().map(|f| f.to_json()).collect()));
-    j.put("viol_counts", J::Obj(out.viol_counts.iter().map(|(k, v)| (k.to_string(), J::u(*v))).collect()));
-    j.put("gate_broken_histories", J::u(out.gate_broken_histories));
-    j
-}
-
-fn emit(args: &Args, j: J) {
-    let s = j.to_string();
-    if let Some(p) = args.kv.get("out") { std::fs::write(p, &s).expect("write result"); }
-    println!("RESULT {}", s);
-}
-
-fn quiet_panics() {
-    // expected panics (injected ones, documented ones) are part of the workloads; keep stderr readable
-    std::panic::set_hook(Box::new(|info| {
-        let msg = info.to_string();
-        if std::env::var("LRUVERIF_SHOW_PANICS").is_ok() { eprintln!("[panic] {}", msg); }
-    }));
-}
 
 fn main() {
     let args = Args::parse();
@@ -118,24 +51,43 @@ fn main() {
             inject::replay_inject(&cfg, &ops, at, class, n, &mut out);
             emit(&args, stats_json(&out).set("cmd", J::s("replay_inject")));
         }
-        "memsize" => {
-            let nsh = args.u64("nshards", 1).max(1);
-            let ms = memsize::run_memsize(args.u64("seed", 0), args.u64("rounds", 200), if nsh > 1 { Some((args.u64("shard", 0), nsh)) } else { None });
+        "autotraits" => {
+            let rows = sharedref::trait_table();
             let mut out = engine::RunOut::new();
-            out.stats = ms.stats;
-            for v in &ms.viols { *out.viol_counts.entry(v.prop).or_insert(0) += 1; }
-            let mut j = stats_json(&out).set("cmd", J::s("memsize"));
+            let mut fails = Vec::new();
+            let ok = sharedref::probe_selftest();
+            if !ok { fails.push(J::obj().set("property", J::s("C18")).set("signature", J::s("probe-selftest")).set("message", J::s("the trait probe misreports known auto traits")).set("kind", J::s("autotraits"))); }
+            for (i, r) in rows.iter().enumerate() {
+                out.stats.eval("C18", (i as u64) * 2); out.stats.eval("C18", (i as u64) * 2 + 1);
+                if r.send != r.want_send { fails.push(J::obj().set("property", J::s("C18")).set("signature", J::s("send")).set("kind", J::s("autotraits")).set("message", J::s(&format!("LruCache<K: {}, V: {}, S: {}> is {}Send, expected {}Send", r.k, r.v, r.s, if r.send { "" } else { "not " }, if r.want_send { "" } else { "not " })))); }
+                if r.sync != r.want_sync { fails.push(J::obj().set("property", J::s("C18")).set("signature", J::s("sync")).set("kind", J::s("autotraits")).set("message", J::s(&format!("LruCache<K: {}, V: {}, S: {}> is {}Sync, expected {}Sync", r.k, r.v, r.s, if r.sync { "" } else { "not " }, if r.want_sync { "" } else { "not " })))); }
+            }
+            out.stats.events = rows.len() as u64 * 2;
+            out.stats.add("c18_table_rows", rows.len() as u64);
+            out.stats.add("c18_rows_expected_send", rows.iter().filter(|r| r.want_send).count() as u64);
+            out.stats.add("c18_rows_expected_not_send", rows.iter().filter(|r| !r.want_send).count() as u64);
+            out.stats.add("c18_rows_expected_sync", rows.iter().filter(|r| r.want_sync).count() as u64);
+            for r in rows.iter().take(5) { out.stats.sample("C18", format!("LruCache<K: {}, V: {}, S: {}>: Send={} Sync={}", r.k, r.v, r.s, r.send, r.sync)); }
+            if !fails.is_empty() { out.viol_counts.insert("C18", fails.len() as u64); }
+            let mut j = stats_json(&out).set("cmd", J::s("autotraits"));
             if let J::Obj(o) = &mut j { o.retain(|(k, _)| k != "failures"); }
-            j.put("failures", J::Arr(ms.viols.iter().map(|v| J::obj().set("property", J::s(v.prop)).set("signature", J::s(&v.sig)).set("message", J::s(&v.msg)).set("kind", J::s("memsize"))).collect()));
-            j.put("types", J::Arr(ms.per_type.iter().map(|(n, c)| J::obj().set("type", J::s(n)).set("values", J::u(*c))).collect()));
+            j.put("failures", J::Arr(fails));
             emit(&args, j);
         }
-        "memsize_total" => {
-            // one totality case per process: the verdict is the exit status (stack overflow aborts the process)
-            let case = args.u64("case", 0); let n = args.u64("n", 1_000_000) as usize;
-            let small = args.str("thread", "main") == "small";
-            let run = move || match memsize::totality_case(case, n) { Some((what, got, want)) => println!("TOTAL-OK case={} n={} {} = {} (law: {})", case, n, what, got, want), None => println!("TOTAL-NONE case={}", case) };
-            if small { std::thread::Builder::new().spawn(run).unwrap().join().unwrap(); } else { run(); }
+        "sharedref" | "sharedref_threads" => {
+            let threads = args.u64("threads", 4) as usize;
+            #[cfg(all(not(miri), not(feature = "noarena")))]
+            let sr = if args.cmd == "sharedref" { sharedref::run_arena(args.u64("seed", 0), args.u64("states", 50), threads) } else { sharedref::run_threads(args.u64("seed", 0), args.u64("states", 10), threads) };
+            #[cfg(any(miri, feature = "noarena"))]
+            let sr = sharedref::run_threads(args.u64("seed", 0), args.u64("states", 10), threads);
+            let mut out = engine::RunOut::new();
+            out.stats = sr.stats;
+            for s in &sr.samples { out.stats.sample("C19", s.clone()); out.stats.sample("C18", s.clone()); }
+            for v in &sr.viols { *out.viol_counts.entry(v.prop).or_insert(0) += 1; }
+            let mut j = stats_json(&out).set("cmd", J::s(&args.cmd));
+            if let J::Obj(o) = &mut j { o.retain(|(k, _)| k != "failures"); }
+            j.put("failures", J::Arr(sr.viols.iter().map(|v| J::obj().set("property", J::s(v.prop)).set("signature", J::s(&v.sig)).set("message", J::s(&v.msg)).set("kind", J::s("sharedref"))).collect()));
+            emit(&args, j);
         }
         "selfcheck" => {
             // used by the driver to build (and smoke-test) a mode
